@@ -209,17 +209,23 @@ pub fn record(prop: &str, rules_file: &str, out: &str, nwords: usize) {
                 let text = rules::rule_text(&a["rule"], &t);
                 let cls = a["class"].as_str().unwrap_or("any").to_string();
                 let mut r2 = Rng::new(seed.wrapping_mul(31).wrapping_add(a["seed"].as_u64().unwrap_or(0)));
-                for _ in 0..nwords {
+                // half of the words are random, half are assembled from segments matching the rule's own elements (whole, cut short, doubled)
+                let directed = crate::directed::words(&a["rule"], &t, &mut r2, nwords.div_ceil(2));
+                let planted = t.cards.iter().find(|(g, _)| g == "q").map(|(_, s)| *s);
+                for wi in 0..nwords {
                     let long = !(cls == "seg-ipa");
-                    let wt = gen_word_text(&mut r2, long);
+                    let mut wt = if wi % 2 == 1 && wi / 2 < directed.len() { sum.count("directed_words", 1); directed[wi / 2].clone() } else { gen_word_text(&mut r2, long) };
+                    if !long { wt = wt.replace('ː', ""); }
                     let Ok(word) = v::parse_word(&wt, &al) else { continue };
+                    // C06: the word must not contain the planted literal itself (its near-misses are welcome)
+                    if prop == "C06" && word.syllables.iter().any(|sy| sy.segments.iter().any(|s| Some(*s) == planted)) { continue; }
                     let wl: usize = word.syllables.iter().map(|s| s.segments.len()).sum();
                     let o = run_rules(&[text.clone()], &word, budget(wl, rule_len(&a["rule"]), backtrackers(&a["rule"])), false);
                     let after = o.steps.last().map(|s| s.word.clone()).unwrap_or(word.clone());
                     sum.vectors += 1;
                     if o.out == "ok" { sum.count("ok", 1); if after != word { sum.nontrivial += 1; } } else { sum.count(o.out, 1); }
                     w.put(json!({"cls": cls, "out": o.out, "w": w_compact(&word, false), "a": w_compact(&after, false)}),
-                          json!({"rule": text, "word": wt, "outcome": o.out, "detail": o.detail, "after": v::render_word(&after, &al)}));
+                          json!({"rule": text, "word": wt, "before": v::render_word(&word, &al), "outcome": o.out, "detail": o.detail, "after": v::render_word(&after, &al)}));
                     if sum.samples.len() < 4 && o.out == "ok" { sum.sample(|| json!({"rule": text, "word": wt, "after": v::render_word(&after, &al), "class": cls})); }
                 }
             }
@@ -294,8 +300,9 @@ pub fn record(prop: &str, rules_file: &str, out: &str, nwords: usize) {
             let nhist = asts.len() * nwords / 2;
             for _ in 0..nhist {
                 let k = 1 + rng.below(6);
-                let hist: Vec<String> = (0..k).map(|_| match rng.below(10) { 0..=5 => rng.pick(&texts).clone(), 6..=7 => rng.pick(&c.test_rules).clone(), _ => if ie_rules.is_empty() { rng.pick(&texts).clone() } else { rng.pick(&ie_rules).clone() } }).collect();
-                let wt = if rng.chance(1, 4) { rng.pick(&c.test_words).clone() } else { gen_word_text(&mut rng, true) };
+                let first = rng.below(texts.len());
+                let hist: Vec<String> = (0..k).map(|hi| if hi == 0 { texts[first].clone() } else { match rng.below(10) { 0..=5 => rng.pick(&texts).clone(), 6..=7 => rng.pick(&c.test_rules).clone(), _ => if ie_rules.is_empty() { rng.pick(&texts).clone() } else { rng.pick(&ie_rules).clone() } } }).collect();
+                let wt = if rng.chance(1, 4) { rng.pick(&c.test_words).clone() } else if rng.chance(1, 2) { crate::directed::words(&asts[first]["rule"], &t, &mut rng, 1).pop().unwrap_or_else(|| gen_word_text(&mut rng, true)) } else { gen_word_text(&mut rng, true) };
                 let Ok(word) = v::parse_word(&wt, &al) else { continue };
                 if word.syllables.is_empty() { continue; }
                 let wl: usize = word.syllables.iter().map(|s| s.segments.len()).sum();
@@ -381,8 +388,10 @@ pub fn record(prop: &str, rules_file: &str, out: &str, nwords: usize) {
                 let base = rules::rule_text(&a["rule"], &t);
                 // a third as generated, a third mutated, a third noise (rule or word)
                 let (text, kind) = match i % 3 { 0 => (base.clone(), "grammar"), 1 => (mutate(&base, &mut rng), "mutated"), _ => (if rng.chance(1, 2) { noise(&mut rng) } else { mutate(&mutate(&base, &mut rng), &mut rng) }, "noise") };
+                let directed = if kind == "grammar" { crate::directed::words(&a["rule"], &t, &mut rng, nwords.div_ceil(2)) } else { vec![] };
                 for j in 0..nwords {
-                    let wt = if kind == "noise" && j % 2 == 1 { noise(&mut rng) } else if rng.chance(1, 6) { rng.pick(&c.test_words).clone() } else { gen_word_text(&mut rng, true) };
+                    let wt = if kind == "noise" && j % 2 == 1 { noise(&mut rng) } else if j % 2 == 1 && j / 2 < directed.len() { sum.count("directed_words", 1); directed[j / 2].clone() }
+                             else if rng.chance(1, 6) { rng.pick(&c.test_words).clone() } else { gen_word_text(&mut rng, true) };
                     let wl = wt.chars().count();
                     let b = budget(wl, rule_len(&a["rule"]) + 4, backtrackers(&a["rule"]) + 1);
                     // alias strings: mostly none; documented shapes (multi-element inputs with modifiers, + operator, $ rules); mutations and noise
